@@ -303,6 +303,13 @@ def learn_warnings(root):
         shutil.rmtree(os.path.join(root, "learn-hist"), ignore_errors=True)
 
 
+# one input per displayable kind (every display routine reads the precision option in its own way)
+KINDS_INPUTS = ["2.5", "1/3", "-7/3", "10^20", "2.5 m", "(1/3) kg", "{0.5, 1/3, 2}", "[0.1, 0.25]", "#2020-01-01T10:00:00.5#", "\"text\"", "Uniform(0.5, 1)",
+                "X = Gaussian(0, 1.5)", "{Bernoulli(0.5)}", "Uniform(0, 1) < 0.5", "0.25 < Exponential(0.5) < 0.75", "Binomial(10, 0.3)", "Poisson(2.5) = 1",
+                "5!", "{3!, 0.1}", "1e-7 + 0.0", "123456789.123", "1 m|s", "sqrt(2)", "pi", "%u m", "%f sin"]
+KINDS_SESSION = ("\n".join(KINDS_INPUTS) + "\n%q\n").encode()
+
+
 REG_SNIPPET = ("import json, ka.units as u\n"
                "print('REG ' + json.dumps([[x.symbol, x.singular_name, float(x.multiple)] for x in u.UNITS if 'cash' in x.quantities]))\n")
 
@@ -639,6 +646,7 @@ def _check(ctx, rng, R, C, CU, tmp):
                 j["hist_after"] = f.read()
         except Exception as e:  # noqa
             j["hist_after"] = type(e).__name__
+        j["kinds"] = run_py(home, ["-m", "ka.cli"], stdin=KINDS_SESSION)     # last: it rewrites the history file
         return j
 
     # the product is walked in a seeded random order, in chunks, under a time budget (the thorough tier covers the
@@ -731,6 +739,13 @@ def _check(ctx, rng, R, C, CU, tmp):
                    "none" if (rc == 1 and out.strip() == "" and err.strip() != "") else "some", "C" * nwarn)
         cases_one.append(("startup one %s %s %s" % (cs.model(), us.model(), hs.model()), obs,
                           dict(name=name, both=("usd" in rates and "eur" in rates))))
+        # ---------------- a session displaying a value of every kind: starts, answers every input, exits 0 — under every state
+        rc, out, err = j["kinds"]
+        ctx.count("kinds:" + name, bucket="fault-enumeration/display-of-every-kind")
+        nprompts = out.count(prompt)
+        if "Traceback" in err or rc != 0 or nprompts < len(KINDS_INPUTS) + 1:
+            ctx.violation("interpreter-crash-kinds", json.dumps(inp), "the interpreter answers all %d inputs (one of every displayable kind) and %%q exits with code 0" % len(KINDS_INPUTS),
+                          "rc=%s, %d prompts, stderr=%s" % (rc, nprompts, err[-500:]), "printf '<one input per kind>\\n%%q\\n' | " + how)
         # ---------------- interpreter session
         rc, out, err = j["int"]
         exp_out = "ka version %s\n%s 2\n%s " % (R.interpret.KA_VERSION, prompt, prompt)
